@@ -196,6 +196,28 @@ HTML_BYTE_FRAMES = [("", ""), ("<", ""), ("<a", ">"), ("<a ", "=1>"), ("<a b", "
                     ("<a b='", "'>"), ("x", " onclick=1"), ("<a href=", "javascript:1>"), ("&#", ";")]
 
 
+WINDOW_FILLERS = [["foo", "bar", "baz", "qux", "quux", "corge", "grault", "garply", "waldo"],
+                  ["a", "(", "b", ")", "c", "(", "d", ")", "e"],
+                  ["1", ",", "2", ",", "3", ",", "4", ",", "5"],
+                  ["1", "union", "select", "1", ",", "2", ",", "3", ","],
+                  ["x", "=", "y", ",", "z", "=", "1", ",", "w"],
+                  ["'a'", "b", "'c'", "d", "'e'", "f", "'g'", "h", "'i'"]]
+WINDOW_SPECIALS = ["/*!1*/", "/* /* */", "/*!32302 2*/", "/*!", "{", "}", "{ x", "/*sp_password*/", "--sp_password", "-- x", "#x", "`", "'", '"',
+                   "\\", "@", "$$", "0x", "x''", ";", "/*", "/**/", "1e", "::", "sp_password", "(", ")", "in (", "like", "collate a_b", "@@v", "1.e",
+                   "union all", "not", "-", "!!", "int", "select"]
+
+
+def window_frames():
+    """every special token (evil, braces, comments, openers, phrase heads ...) as the k-th token, k = 1..10, behind token sequences
+    that fold differently: the boundaries of the 5-token fingerprint and of the 8-slot fold window (tokens 5, 6, 7, 8)"""
+    for fill in WINDOW_FILLERS:
+        for k in range(0, len(fill) + 1):
+            head = " ".join(fill[:k])
+            for t in WINDOW_SPECIALS:
+                for tail in ("", " d", " 1 -- "):
+                    yield b((head + " " if head else "") + t + tail)
+
+
 def literal_bodies(maxlen):
     """SQL literal openers x all bodies over {closer, quote, backslash, filler, opener byte}"""
     fam = [("q'[", "]'a["), ("q'x", "x'a"), ("q'(", ")'a("), ("nq'!", "!'a"), ("$a$", "$a x"), ("$$", "$a"), ("'", "'\\a"), ('"', '"\\a'),
